@@ -1,35 +1,71 @@
-(* C13 (3): Fourier1 per-direction factor f1s n enclosed by interval arithmetic, n in [8, 11, 19, 30]
+(* C13 (3): Fourier1 per-direction factor f1s n enclosed by interval arithmetic on its closed form, n in [3, 14, 19, 30, 35, 46, 51, 62]
    (file generated once by a script, split for parallel compilation; independent of /repo). *)
-From Coq Require Import ZArith List Reals Lra.
+From Coq Require Import ZArith List Lia Reals Lra.
 From Interval Require Import Tactic.
 From Flocq Require Import Raux.
-From P Require Import C13_gen C13_model C13_proofs_weights.
+From P Require Import C13_gen C13_model C13_proofs_weights C13_proofs_f1c.
 Open Scope R_scope.
 
-Lemma f1s_bound_8 : 1 - / IZR 8 <= f1s 8 <= 1.
+Lemma f1s_bound_3 : 1 - / IZR 3 <= f1s 3 <= 1.
 Proof.
-  assert (H : Rabs (f1s 8 - (1 - / IZR 8 / 2)) <= / IZR 8 / 2).
-  { unfold f1s, fourier1_dir, sumR. ev. interval. }
+  rewrite f1s_closed_form by (clear; lia).
+  assert (H : Rabs (f1s_closed 3 - (1 - / IZR 3 / 2)) <= / IZR 3 / 2).
+  { unfold f1s_closed, f1_term, sumR. ev. interval. }
   apply Rabs_le_inv in H. lra.
 Qed.
 
-Lemma f1s_bound_11 : 1 - / IZR 11 <= f1s 11 <= 1.
+Lemma f1s_bound_14 : 1 - / IZR 14 <= f1s 14 <= 1.
 Proof.
-  assert (H : Rabs (f1s 11 - (1 - / IZR 11 / 2)) <= / IZR 11 / 2).
-  { unfold f1s, fourier1_dir, sumR. ev. interval. }
+  rewrite f1s_closed_form by (clear; lia).
+  assert (H : Rabs (f1s_closed 14 - (1 - / IZR 14 / 2)) <= / IZR 14 / 2).
+  { unfold f1s_closed, f1_term, sumR. ev. interval. }
   apply Rabs_le_inv in H. lra.
 Qed.
 
 Lemma f1s_bound_19 : 1 - / IZR 19 <= f1s 19 <= 1.
 Proof.
-  assert (H : Rabs (f1s 19 - (1 - / IZR 19 / 2)) <= / IZR 19 / 2).
-  { unfold f1s, fourier1_dir, sumR. ev. interval. }
+  rewrite f1s_closed_form by (clear; lia).
+  assert (H : Rabs (f1s_closed 19 - (1 - / IZR 19 / 2)) <= / IZR 19 / 2).
+  { unfold f1s_closed, f1_term, sumR. ev. interval. }
   apply Rabs_le_inv in H. lra.
 Qed.
 
 Lemma f1s_bound_30 : 1 - / IZR 30 <= f1s 30 <= 1.
 Proof.
-  assert (H : Rabs (f1s 30 - (1 - / IZR 30 / 2)) <= / IZR 30 / 2).
-  { unfold f1s, fourier1_dir, sumR. ev. interval. }
+  rewrite f1s_closed_form by (clear; lia).
+  assert (H : Rabs (f1s_closed 30 - (1 - / IZR 30 / 2)) <= / IZR 30 / 2).
+  { unfold f1s_closed, f1_term, sumR. ev. interval. }
+  apply Rabs_le_inv in H. lra.
+Qed.
+
+Lemma f1s_bound_35 : 1 - / IZR 35 <= f1s 35 <= 1.
+Proof.
+  rewrite f1s_closed_form by (clear; lia).
+  assert (H : Rabs (f1s_closed 35 - (1 - / IZR 35 / 2)) <= / IZR 35 / 2).
+  { unfold f1s_closed, f1_term, sumR. ev. interval. }
+  apply Rabs_le_inv in H. lra.
+Qed.
+
+Lemma f1s_bound_46 : 1 - / IZR 46 <= f1s 46 <= 1.
+Proof.
+  rewrite f1s_closed_form by (clear; lia).
+  assert (H : Rabs (f1s_closed 46 - (1 - / IZR 46 / 2)) <= / IZR 46 / 2).
+  { unfold f1s_closed, f1_term, sumR. ev. interval. }
+  apply Rabs_le_inv in H. lra.
+Qed.
+
+Lemma f1s_bound_51 : 1 - / IZR 51 <= f1s 51 <= 1.
+Proof.
+  rewrite f1s_closed_form by (clear; lia).
+  assert (H : Rabs (f1s_closed 51 - (1 - / IZR 51 / 2)) <= / IZR 51 / 2).
+  { unfold f1s_closed, f1_term, sumR. ev. interval. }
+  apply Rabs_le_inv in H. lra.
+Qed.
+
+Lemma f1s_bound_62 : 1 - / IZR 62 <= f1s 62 <= 1.
+Proof.
+  rewrite f1s_closed_form by (clear; lia).
+  assert (H : Rabs (f1s_closed 62 - (1 - / IZR 62 / 2)) <= / IZR 62 / 2).
+  { unfold f1s_closed, f1_term, sumR. ev. interval. }
   apply Rabs_le_inv in H. lra.
 Qed.
